@@ -138,6 +138,95 @@ example : (rangeK 0 (some 100001) none) = .ok err := by decide
 example : (rangeK 0 (some 9223372036854775807) (some 92233720368548)) =
     .ok { allocs := [100000], res := .ok ⟨100000, 0, 92233720368548⟩ } := by decide
 
+/-- the items of a range are exactly `start + i·step` as integers: every item fits `isize`, so the
+    `i128 → isize` cast of the negative-step branch (and `Step::forward` of the others) is exact -/
+theorem range_items_exact (lower : Int) (upper step : Option Int) (hl : InI64 lower) (hu : OptInI64 upper)
+    (hs : OptInI64 step) (out : Out RangeOut) (r : RangeOut)
+    (h : rangeK lower upper step = .ok out) (hr : out.res = .ok r) (i : Nat) (hi : i < r.len) :
+    InI64 (r.item i) := by
+  have hlo : InI64 (rangeLo lower upper) := by
+    cases upper with
+    | none => simp [rangeLo, InI64]
+    | some u => exact hl
+  have hhi : InI64 (rangeHi lower upper) := by
+    cases upper with
+    | none => exact hl
+    | some u => simpa [OptInI64, rangeHi] using hu
+  unfold rangeK at h
+  simp only [] at h
+  generalize rangeLo lower upper = lo at *
+  generalize rangeHi lower upper = hiB at *
+  simp only [InI64] at hlo hhi ⊢
+  have key : ∀ len f st, out = toResult len f st → r.len = len ∧ r.first = f ∧ r.stride = st := by
+    intro len f st e
+    subst e
+    obtain ⟨h1, h2, h3, _, _⟩ := toResult_len_le len f st r hr
+    exact ⟨h1, h2, h3⟩
+  unfold RangeOut.item
+  cases step with
+  | none =>
+    simp at h
+    obtain ⟨e1, e2, e3⟩ := key _ _ _ h.symm
+    rw [e2, e3]
+    rw [e1] at hi
+    unfold rangeLen at hi
+    split at hi
+    · omega
+    · omega
+  | some s =>
+    have hs' : InI64 s := by simpa [OptInI64] using hs
+    simp only [InI64] at hs'
+    simp only at h
+    by_cases h0 : s = 0
+    · simp [h0] at h; subst h; simp [err] at hr
+    · simp only [h0, if_false] at h
+      by_cases hpos : s > 0
+      · simp [hpos] at h
+        obtain ⟨e1, e2, e3⟩ := key _ _ _ h.symm
+        rw [e2, e3]
+        rw [e1] at hi
+        unfold rangeLen at hi
+        by_cases hlt : lo < hiB
+        · simp only [hlt, if_true] at hi
+          have hn : ¬ ((hiB - lo).toNat = 0) := by omega
+          simp only [hn, if_false] at hi
+          -- i ≤ (n - 1) / s  ⇒  i * s ≤ n - 1
+          obtain ⟨k, rfl⟩ : ∃ k : Nat, s = (k : Int) := ⟨s.toNat, by omega⟩
+          have hk : 0 < k := by omega
+          simp only [Int.toNat_natCast] at hi
+          have h1 : i ≤ ((hiB - lo).toNat - 1) / k := by omega
+          have h2 : i * k ≤ (hiB - lo).toNat - 1 := (Nat.le_div_iff_mul_le hk).mp h1
+          have h3 : ((i * k : Nat) : Int) = (i : Int) * (k : Int) := by push_cast; rfl
+          generalize (i : Int) * (k : Int) = m at h3 ⊢
+          omega
+        · simp only [hlt, if_false] at hi
+          simp at hi
+      · simp only [hpos, if_false] at h
+        rw [negStepLen_ok lo hiB s ⟨hlo.1, hlo.2⟩ ⟨hhi.1, hhi.2⟩ ⟨hs'.1, hs'.2⟩ (by omega)] at h
+        simp at h
+        obtain ⟨e1, e2, e3⟩ := key _ _ _ h.symm
+        rw [e2, e3]
+        rw [e1] at hi
+        by_cases hle : lo ≤ hiB
+        · simp [hle] at hi
+        · simp only [hle, if_false] at hi
+          -- d = -s > 0, q = (lo - hi + d - 1) / d, i + 1 ≤ q ⇒ (i + 1) * d ≤ lo - hi + d - 1
+          have hd : 0 < -s := by omega
+          have hq0 : 0 ≤ (lo - hiB - s - 1) / (-s) := Int.ediv_nonneg (by omega) (by omega)
+          have hdiv : (lo - hiB - s - 1) / (-s) = -((lo - hiB - s - 1) / s) := Int.ediv_neg _ _
+          have h1 : ((i : Int) + 1) ≤ (lo - hiB - s - 1) / (-s) := by omega
+          have h2 : (lo - hiB - s - 1) / (-s) * (-s) ≤ lo - hiB - s - 1 := Int.ediv_mul_le _ (by omega)
+          have h3 : ((i : Int) + 1) * (-s) ≤ (lo - hiB - s - 1) / (-s) * (-s) :=
+            Int.mul_le_mul_of_nonneg_right h1 (by omega)
+          have h4 : ((i : Int) + 1) * (-s) = -((i : Int) * s) + (-s) := by
+            rw [Int.add_mul, Int.mul_neg]; simp
+          have h5 : 0 ≤ (i : Int) * (-s) := Int.mul_nonneg (by omega) (by omega)
+          have h6 : (i : Int) * (-s) = -((i : Int) * s) := Int.mul_neg _ _
+          generalize (i : Int) * s = m at h4 h5 h6 ⊢
+          omega
+
+example : (⟨3, 9223372036854775807, -9223372036854775807⟩ : RangeOut).item 2 = -9223372036854775807 := by decide
+
 /-- `loop.cycle(...)`: never a division by zero -/
 theorem cycle_no_panic (idx argc : Nat) : cycleK idx argc ≠ .panic := by
   unfold cycleK urem
@@ -439,6 +528,146 @@ theorem limits_fit_2GiB :
     Gen.rangeLimit * valueSize ≤ 2147483648 ∧ Gen.maxRepeatedStringLen ≤ 2147483648 ∧
     Gen.fmtMaxWidth ≤ 2147483648 ∧ Gen.untrustedSizeHintCap * valueSize ≤ 2147483648 ∧
     Gen.maxExprNesting ≤ 10000 ∧ Gen.maxRecursionParser ≤ 1000 := by decide
+
+/-- `loop.index`, `revindex`, `last`, `depth` …: `idx + 1` cannot wrap (the counter is `!0` only before
+    the first item, where everything is undefined), `len - 1` is guarded by `len == 0` -/
+theorem loopAttrs_no_panic (idx : Nat) (len : Option Nat) (depth : Nat) (hi : idx < 18446744073709551616)
+    (hd : depth + 1 < 18446744073709551616) : loopAttrsK idx len depth ≠ .panic := by
+  unfold loopAttrsK
+  by_cases h : idx = 18446744073709551615
+  · simp [h]
+  · simp only [h, if_false, u64Add]
+    rw [if_pos (by omega)]
+    simp only [ok_bind, usizeN]
+    rw [if_pos hd]
+    cases len with
+    | none => simp
+    | some l =>
+      simp only
+      by_cases hl : l = 0
+      · simp [hl]
+      · simp only [hl, if_false, usub]
+        rw [if_pos (by omega)]
+        simp
+
+example : loopAttrsK 2 (some 3) 0 = .ok (some ⟨2, 3, some 3, some 1, some 0, false, true, 1, 0⟩) := by decide
+example : loopAttrsK 0 none 0 = .ok (some ⟨0, 1, none, none, none, true, false, 1, 0⟩) := by decide
+example : loopAttrsK 18446744073709551615 (some 0) 0 = .ok none := by decide
+
+theorem groupedLen_ge (n g : Nat) : n ≤ groupedLen n g := by
+  unfold groupedLen
+  split
+  · omega
+  · exact Nat.le_add_right _ _
+
+/-- zero padding of a grouped number: `grouped.len() - prefix.len() - fill_width` cannot underflow and
+    the slice starts inside the string -/
+theorem zeroPad_no_panic (numLen prefixLen fill g : Nat) (hg : 0 < g) :
+    zeroPadK numLen prefixLen fill g ≠ .panic := by
+  unfold zeroPadK
+  have h1 := groupedLen_ge (prefixLen + fill) g
+  simp only [show ¬ g = 0 by omega, if_false, usub]
+  rw [if_pos (by omega)]
+  simp only [ok_bind]
+  rw [if_pos (by omega)]
+  simp only [ok_bind]
+  rw [if_pos (by omega)]
+  simp
+
+/-- `'{:09,}'.format(1234)`: number `1,234`, prefix `1`, four zeros → `0,001,234` -/
+example : zeroPadK 5 1 4 3 = .ok { allocs := [4], res := .ok 9 } := by decide
+/-- three zeros would start with a separator: one more `0` is prepended → also 9 characters -/
+example : zeroPadK 5 1 3 3 = .ok { allocs := [3], res := .ok 9 } := by decide
+
+theorem foldl_max_ge (xs : List Nat) (a : Nat) : a ≤ xs.foldl max a := by
+  induction xs generalizing a with
+  | nil => simp
+  | cons x xs ih => simp only [List.foldl_cons]; have := ih (max a x); omega
+
+theorem foldl_max_mem (xs : List Nat) (a x : Nat) (h : x ∈ xs) : x ≤ xs.foldl max a := by
+  induction xs generalizing a with
+  | nil => simp at h
+  | cons y ys ih =>
+    simp only [List.foldl_cons]
+    rcases List.mem_cons.mp h with rfl | h'
+    · have := foldl_max_ge ys (max a x); omega
+    · exact ih _ h'
+
+/-- a `MergeSeq` is well formed: its stored depth bounds the real nesting and is at most `maxDepth` -/
+def MSWF (maxDepth : Nat) : MS → Prop
+  | .leaf => True
+  | .node d cs => (MS.node d cs).real ≤ d ∧ d ≤ maxDepth
+
+theorem realMax_le (vs : List MS) (m : Nat) (h : ∀ v ∈ vs, v.real ≤ m) : realMax vs ≤ m := by
+  induction vs with
+  | nil => simp [realMax]
+  | cons v vs ih =>
+    simp only [realMax]
+    have := h v (by simp)
+    have := ih (fun v hv => h v (by simp [hv]))
+    omega
+
+mutual
+  theorem flatten_leaves : ∀ (t : MS), ∀ v ∈ t.flatten, v = .leaf
+    | .leaf, v, h => by simpa [MS.flatten] using h
+    | .node _ cs, v, h => flattenList_leaves cs v (by simpa [MS.flatten] using h)
+  theorem flattenList_leaves : ∀ (cs : List MS), ∀ v ∈ flattenList cs, v = .leaf
+    | [], v, h => by simp [flattenList] at h
+    | c :: cs, v, h => by
+      simp only [flattenList, List.mem_append] at h
+      rcases h with h | h
+      · exact flatten_leaves c v h
+      · exact flattenList_leaves cs v h
+end
+
+/-- **MergeSeq depth bound**: whatever is concatenated, a `MergeSeq` built by `with_repr` from well-formed
+    parts is well formed — iteration and `len` over lazily concatenated sequences recurse at most
+    `MAX_DEPTH` (32) levels, however long the `a = a + [x]` chain -/
+theorem mergeSeq_depth_bounded (maxDepth : Nat) (hm : 1 ≤ maxDepth) (vs : List MS)
+    (h : ∀ v ∈ vs, MSWF maxDepth v) : MSWF maxDepth (mkMergeSeq maxDepth vs) := by
+  unfold mkMergeSeq
+  simp only
+  split
+  · -- flattened: only non-MergeSeq parts remain
+    have hl := flattenList_leaves vs
+    have hstored : ∀ x ∈ (flattenList vs).map MS.stored, x = 0 := by
+      intro x hx
+      obtain ⟨v, hv, rfl⟩ := List.mem_map.mp hx
+      rw [hl v hv]; rfl
+    have hd : depthForValues (flattenList vs) = 1 := by
+      unfold depthForValues
+      have : ∀ (xs : List Nat), (∀ x ∈ xs, x = 0) → xs.foldl max 0 = 0 := by
+        intro xs hx
+        induction xs with
+        | nil => rfl
+        | cons y ys ih =>
+          simp only [List.foldl_cons]
+          rw [hx y (by simp)]
+          exact ih (fun x hx' => hx x (by simp [hx']))
+      rw [this _ hstored]
+    rw [hd]
+    refine ⟨?_, hm⟩
+    simp only [MS.real]
+    have := realMax_le (flattenList vs) 0 (fun v hv => by rw [hl v hv]; simp [MS.real])
+    omega
+  · rename_i hle
+    refine ⟨?_, by omega⟩
+    simp only [MS.real]
+    unfold depthForValues
+    have := realMax_le vs ((vs.map MS.stored).foldl max 0) (by
+      intro v hv
+      have hst : v.stored ≤ (vs.map MS.stored).foldl max 0 := foldl_max_mem _ 0 _ (List.mem_map.mpr ⟨v, hv, rfl⟩)
+      have hwf := h v hv
+      cases v with
+      | leaf => simp [MS.real]
+      | node d cs =>
+        simp only [MSWF] at hwf
+        simp only [MS.stored] at hst
+        omega)
+    omega
+
+/-- the limit regenerated from `merge_object.rs` is usable -/
+theorem mergeSeq_limit : 1 ≤ Gen.mergeSeqMaxDepth ∧ Gen.mergeSeqMaxDepth ≤ 64 := by decide
 
 theorem kernels_never_panic : KernelsNeverPanic :=
   ⟨fun _ xs a b c ha hb hc hl => slice_no_panic xs a b c ha hb hc hl, range_no_panic, cycle_no_panic,
